@@ -1,6 +1,7 @@
 package main
 
 import (
+	"go/types"
 	"fmt"
 	"go/token"
 	"strings"
@@ -181,6 +182,33 @@ func ruleInvalidNaNPairing(w *World, r *RuleResult) {
 			key := fmt.Sprintf("%s | NaN result #%d carries an invalid-class flag", name, i+1)
 			before := seenBefore(c, raise(invalid)) || raise(invalid)(c) // a helper may store NaN and raise in one call
 			after, _ := mustPassFrom(c, raise(invalid), errExempt)
+			if !before && !after {
+				// stored where an error value was found non-nil, and every return reached from here hands that
+				// very error on: the failure path of a parsing step
+				for _, g := range guardsAt(c.Block()) {
+					bo, isB := g.Cond.(*ssa.BinOp)
+					if !isB || !isNilConst(bo.Y) || !types.Identical(bo.X.Type(), types.Universe.Lookup("error").Type()) {
+						continue
+					}
+					if !(bo.Op == token.NEQ && g.Val || bo.Op == token.EQL && !g.Val) {
+						continue
+					}
+					errV := bo.X
+					if ok, _ := mustPassFrom(c, func(ssa.Instruction) bool { return false }, func(rt *ssa.Return) bool {
+						if errExempt(rt) {
+							return true
+						}
+						for _, v := range rt.Results {
+							if v == errV {
+								return true
+							}
+						}
+						return false
+					}); ok {
+						after = true
+					}
+				}
+			}
 			if !before && !after && w.underSystemTest(c.Block(), 0) {
 				// the value of an operation refused for an exponent outside the package limits: the Condition
 				// carries the System* flag that was just tested, which goError always turns into an error
@@ -348,30 +376,49 @@ func ruleZeroSumSign(w *World, r *RuleResult) {
 	floor := w.rounderConsts()["RoundFloor"]
 	key := "(*Context).add | sign of an exact-zero sum"
 	found, good := false, false
-	for _, b := range f.Blocks {
-		zeroGuard := false
-		for _, g := range guardsAt(b) {
-			bo, ok := g.Cond.(*ssa.BinOp)
-			if !ok || bo.Op != token.EQL || !g.Val {
-				continue
-			}
-			if call, ok := bo.X.(*ssa.Call); ok && w.calleeName(call) == "(*BigInt).Sign" {
-				if k, ok := bo.Y.(*ssa.Const); ok && ci(k) == 0 {
-					zeroGuard = true
+	// in add itself, or in a helper it was split into that computes the magnitude and returns the sign
+	for _, af := range w.closureFuncs(f) {
+		for _, b := range af.Blocks {
+			zeroGuard := false
+			for _, g := range guardsAt(b) {
+				bo, ok := g.Cond.(*ssa.BinOp)
+				if !ok || bo.Op != token.EQL || !g.Val {
+					continue
+				}
+				if call, ok := bo.X.(*ssa.Call); ok && w.calleeName(call) == "(*BigInt).Sign" {
+					if k, ok := bo.Y.(*ssa.Const); ok && ci(k) == 0 {
+						zeroGuard = true
+					}
 				}
 			}
-		}
-		if !zeroGuard {
-			continue
-		}
-		for _, in := range b.Instrs {
-			st, ok := in.(*ssa.Store)
-			if !ok || w.exprOf(f, st.Addr).String() != "&d.Negative" {
+			if !zeroGuard {
 				continue
 			}
-			found = true
-			if w.exprOf(f, st.Val).String() == "(c.Rounding == "+floor+")" {
-				good = true
+			for _, in := range b.Instrs {
+				switch x := in.(type) {
+				case *ssa.Store:
+					if !strings.HasSuffix(w.exprOf(af, x.Addr).String(), ".Negative") {
+						continue
+					}
+					found = true
+					if w.exprOf(af, x.Val).String() == "(c.Rounding == "+floor+")" {
+						good = true
+					}
+				case *ssa.Return:
+					// the helper returns the sign of the sum
+					if af == f {
+						continue
+					}
+					for _, res := range x.Results {
+						if bt, isB := res.Type().Underlying().(*types.Basic); !isB || bt.Kind() != types.Bool {
+							continue
+						}
+						found = true
+						if w.exprOf(af, res).String() == "(c.Rounding == "+floor+")" {
+							good = true
+						}
+					}
+				}
 			}
 		}
 	}
